@@ -5,6 +5,7 @@ import (
 	"go/constant"
 	"go/types"
 	"math/big"
+	"strconv"
 	"strings"
 )
 
@@ -157,6 +158,8 @@ func cv(t Term) SVal { return SVal{T: t, Ty: SType{K: KCond}} }
 
 func (e *Env) eval(x Expr) SVal {
 	switch x := x.(type) {
+	case *EStr:
+		return iv(IntLit(e.g.W.strCode(x.S)))
 	case *ELit:
 		n, ok := new(big.Int).SetString(x.V, 0)
 		if !ok {
@@ -700,6 +703,8 @@ func (g *Gen) bigRep(st *State, a Term) Term {
 
 func exprString(x Expr) string {
 	switch x := x.(type) {
+	case *EStr:
+		return strconv.Quote(x.S)
 	case *ELit:
 		return x.V
 	case *EBool:
